@@ -465,7 +465,34 @@ def call_sequences(ctx, d, codegen, algorithms, mods):
         ctx.check("output_depends_on_arguments_only", gname, same, {"generator": gname, "intervening_calls": [str(o) for o in others], "files_first": sorted(a), "files_again": sorted(b), "differing": diff})
         shutil.rmtree(d1, ignore_errors=True)
         shutil.rmtree(d2, ignore_errors=True)
-    ctx.count("generator_call_histories", len(gens))
+    # regeneration into the same destination: a later call with different equations (or options) replaces the file -- the
+    # destination then holds exactly what the same call writes into an empty directory
+    with quiet():
+        other = {"b3": bezier.derive_bezier7()}
+    flat2 = {f.name(): f for f in other["b3"].values()}
+    regen = {
+        "cyecca.codegen.generate_code": (lambda dd: codegen.generate_code(small, dd), lambda dd: codegen.generate_code(other, dd)),
+        "algorithms.generate_code": (lambda dd: algorithms.generate_code({"sim": eqs["sim"]}, dd), lambda dd: algorithms.generate_code({"sim": eqs["mrp"]}, dd)),
+    }
+    for mname, mod in mods.items():
+        regen["cyecca.models.%s.generate_code" % mname] = (lambda dd, mod=mod: mod.generate_code(flat, filename="x.c", dest_dir=dd),
+                                                           lambda dd, mod=mod: mod.generate_code(flat2, filename="x.c", dest_dir=dd))
+        regen["cyecca.models.%s.generate_code(options)" % mname] = (lambda dd, mod=mod: mod.generate_code(flat, filename="x.c", dest_dir=dd),
+                                                                    lambda dd, mod=mod: mod.generate_code(flat, filename="x.c", dest_dir=dd, main=True, with_header=False))
+    for gname, (g1, g2) in regen.items():
+        dsame, dfresh = os.path.join(d, "same_dest"), os.path.join(d, "fresh_dest")
+        shutil.rmtree(dsame, ignore_errors=True)
+        shutil.rmtree(dfresh, ignore_errors=True)
+        with quiet():
+            ok = lib_call(ctx, "generate_code", gname, lambda: (g1(dsame), True)[1], not_implemented_ok=False)
+            ok = lib_call(ctx, "generate_code", gname, lambda: (g2(dsame), True)[1], not_implemented_ok=False) and ok
+            ok = lib_call(ctx, "generate_code", gname, lambda: (g2(dfresh), True)[1], not_implemented_ok=False) and ok
+        a, b = snapshot(dsame), snapshot(dfresh)
+        stale = [k for k in b if a.get(k) != b[k]]
+        ctx.check("regeneration_replaces_earlier_output", gname, bool(ok) and not stale, {"generator": gname, "stale_or_missing_files": stale, "destination": sorted(a), "fresh": sorted(b)})
+        shutil.rmtree(dsame, ignore_errors=True)
+        shutil.rmtree(dfresh, ignore_errors=True)
+    ctx.count("generator_call_histories", len(gens) + len(regen))
 
 
 def _defined(path, name):
